@@ -11,6 +11,7 @@ import (
 	"bytes"
 	"encoding/json"
 	"fmt"
+	"os"
 	"strings"
 	"testing"
 	"time"
@@ -32,9 +33,15 @@ type c12Scenario struct {
 	Script  string `json:"script"`  // one letter per transmission (in order of arrival at the peer); afterwards the peer answers everything
 	PeerHB  string `json:"peerhb"`  // "", "early" (before association), "t3", "t6", "t11": when the peer sends its own Heartbeat Request
 	Explore bool   `json:"explore"`
+	// Sync: explored schedules never let a timer land before an enabled thread (computation is fast compared with the
+	// 2 s / 5 s timers), so the complete oracle of the canonical schedule applies to every explored schedule
+	Sync bool `json:"sync,omitempty"`
 }
 
 func (sc c12Scenario) name() string {
+	if sc.Sync {
+		return fmt.Sprintf("%s-n%d-%s-peerhb=%s-sync", sc.Mode, sc.Retries, sc.Script, sc.PeerHB)
+	}
 	return fmt.Sprintf("%s-n%d-%s-peerhb=%s", sc.Mode, sc.Retries, sc.Script, sc.PeerHB)
 }
 
@@ -55,6 +62,9 @@ func c12Run(sc c12Scenario, prefix []int, sigs []string, ready *grpc.ClientConn)
 	s.PrefixSigs = sigs
 	s.ChargeFreeSwitch = true
 	s.MaxSlack = 3 * time.Second
+	s.NoClockDeviation = sc.Sync
+	s.ArriveYield = sc.Sync
+	loose := sc.Explore && !sc.Sync // timers may land before enabled threads: only the schedule-independent part of the oracle
 	start := s.Now
 	var fab *vnet.Fabric
 	var node *PFCPNode
@@ -239,7 +249,7 @@ func c12Run(sc c12Scenario, prefix []int, sigs []string, ready *grpc.ClientConn)
 			bad = append(bad, fmt.Sprintf("too-many-transmissions: request seq %d was transmitted %d times, max_req_retries is %d", g.txs[0].seq, n, sc.Retries))
 		}
 		for i := 1; i < n; i++ {
-			if g.txs[i].at-g.txs[i-1].at != c12Resp && !sc.Explore {
+			if g.txs[i].at-g.txs[i-1].at != c12Resp && !loose {
 				bad = append(bad, fmt.Sprintf("retransmission-spacing: transmissions of seq %d are %v apart, resp_timeout is %v", g.txs[0].seq, g.txs[i].at-g.txs[i-1].at, c12Resp))
 			}
 			if g.txs[i].at-g.txs[i-1].at < c12Resp {
@@ -266,7 +276,7 @@ func c12Run(sc c12Scenario, prefix []int, sigs []string, ready *grpc.ClientConn)
 			}
 		}
 		txIdx += n
-		if !sc.Explore {
+		if !loose {
 			switch {
 			case answeredAt >= 0 && n != answeredAt+1:
 				bad = append(bad, fmt.Sprintf("transmits-after-response: request seq %d was answered at transmission %d but transmitted %d times", g.txs[0].seq, answeredAt+1, n))
@@ -286,7 +296,7 @@ func c12Run(sc c12Scenario, prefix []int, sigs []string, ready *grpc.ClientConn)
 			installed++
 		}
 	}
-	if !sc.Explore {
+	if !loose {
 		switch {
 		case dead && ((stillThere && sc.PeerHB == "") || installed > 0): // a later peer heartbeat legitimately creates a fresh PFCPConn
 			bad = append(bad, fmt.Sprintf("dead-peer-not-removed: every transmission of a request went unanswered but the association is still known (%v) / %d session entries remain", stillThere, installed))
@@ -436,6 +446,33 @@ func TestVerifC12(t *testing.T) {
 				sc := c12Scenario{Mode: mode, Retries: 1, Script: script, PeerHB: ph, Explore: true}
 				st := schedExplore(res, "c12", sc, "explore:"+sc.name(), bound, 200000, func(p []int, sg []string) (*vsched.Sched, schedVerdict) { return c12Run(sc, p, sg, ready) })
 				res.Distinct += st.Executions
+			}
+		}
+	}
+	// the same, without clock deviations and with the complete oracle, one deviation deeper
+	for _, mode := range []string{"hb", "assoc"} {
+		for _, script := range []string{"", "S", "L", "D", "W", "SL", "LL", "LS"} {
+			for _, ph := range []string{"", "t3"} {
+				item++
+				if !vMine(item) {
+					continue
+				}
+				sc := c12Scenario{Mode: mode, Retries: 1, Script: script, PeerHB: ph, Explore: true, Sync: true}
+				if only := os.Getenv("VERIF_ONLY"); only != "" && !strings.Contains(sc.name(), only) {
+					continue
+				}
+				if os.Getenv("VERIF_DEBUG_SIGS") != "" {
+					s0, v0 := c12Run(sc, nil, nil, ready)
+					for i, ch := range s0.Trace {
+						fmt.Fprintf(os.Stderr, "DBG %d n=%d costs=%v %s\n", i, ch.N, ch.Costs, ch.Sig)
+					}
+					fmt.Fprintf(os.Stderr, "DBG verdict %+v\n", v0)
+				}
+				st := schedExplore(res, "c12", sc, "explore:"+sc.name(), bound+1, 200000, func(p []int, sg []string) (*vsched.Sched, schedVerdict) { return c12Run(sc, p, sg, ready) })
+				res.Distinct += st.Executions
+				if os.Getenv("VERIF_DEBUG_SIGS") != "" {
+					fmt.Fprintf(os.Stderr, "DBG explored %s: %+v\n", sc.name(), st)
+				}
 			}
 		}
 	}
